@@ -95,7 +95,10 @@ class Range:
     After run(), value_at(node) gives the interval of an integer expression at its program point.
     """
 
-    def __init__(self, func, is_size, nmin=1):
+    def __init__(self, func, is_size, nmin=1, param_init=None, depth=0):
+        self.param_init = param_init or {}
+        self.depth = depth
+        self._summaries = {}
         self.f = func
         self.cfg = CFG(func)
         self.is_size = is_size
@@ -165,7 +168,40 @@ class Range:
             return (D.lo_join(a[0], b[0]), D.hi_join(a[1], b[1]))
         if k == "assign":
             return self.assigned_value(n, st)
+        if k == "call":
+            return self.call_summary(n, st)
         return TOP
+
+    def call_summary(self, n, st):
+        """interval of the value returned by a local helper (internal linkage, same file), analysed with the argument intervals"""
+        facts = getattr(self.f, "facts", None)
+        if facts is None or self.depth >= 2:
+            return TOP
+        q = n.get("callee") or ""
+        cands = [g for g in facts.find(q) if g.j.get("body") and g.j.get("internal") and g.file == self.f.file
+                 and g.j.get("template") != "pattern" and len(g.j.get("params", [])) == len(n.get("args", [])) and g is not self.f]
+        if len(cands) != 1 or not cands[0].j.get("cfg"):
+            return TOP
+        g = cands[0]
+        args = [self.ev(a, st) for a in n["args"]]
+        sizes = frozenset(p["decl"] for p, a in zip(g.j["params"], n["args"]) if self.is_size(unwrap(a)))
+        key = (g.qname, tuple(args), sizes)
+        if key not in self._summaries:
+            from .facts import walk
+            written = {unwrap(x["lhs"]).get("decl") for x in walk(g.j["body"]) if x.get("k") == "assign"} | \
+                      {unwrap(x["sub"]).get("decl") for x in walk(g.j["body"]) if x.get("k") == "unop" and x["op"] in ("++", "--")}
+            szs = {d for d in sizes if d not in written}
+            sub = Range(g, lambda x, szs=szs: x.get("k") == "ref" and x.get("decl") in szs, nmin=self.D.nmin,
+                        param_init={p["decl"]: a for p, a in zip(g.j["params"], args)}, depth=self.depth + 1).run()
+            out = None
+            for r in walk(g.j["body"]):
+                if r.get("k") == "return" and r.get("value") is not None:
+                    vid = unwrap(r["value"])["id"]
+                    if vid in sub.reached or r["id"] in sub.reached:
+                        v = sub.at.get(vid, TOP)
+                        out = v if out is None else (self.D.lo_join(out[0], v[0]), self.D.hi_join(out[1], v[1]))
+            self._summaries[key] = out if out is not None else TOP
+        return self._summaries[key]
 
     def mod(self, a, b):
         """C++ truncated remainder a % b, for b > 0"""
@@ -359,7 +395,7 @@ class Range:
     def run(self):
         init = {}
         for p in self.f.j.get("params", []):
-            init[p["decl"]] = TOP
+            init[p["decl"]] = self.param_init.get(p["decl"], TOP)
         IN, OUT = self.cfg.forward(init, self.transfer, self.join, self.edge, widen=self.widen)
         IN = self.cfg.narrow(IN, self.transfer, self.join, self.edge, rounds=3)
         # final recording pass from the narrowed fixpoint
